@@ -524,7 +524,11 @@ impl FileMetaStore {
     ) -> Result<(), Error> {
         if key == HARD_STATE_KEY {
             let hard_state_path = self.data_dir.join(HARD_STATE_FILE_NAME);
-            let mut file = File::create(hard_state_path)?;
+            // Never truncate the live file: write the new state to a temp file in the same
+            // directory, make it durable, then atomically rename it over the old one. A crash
+            // at any point leaves either the previous or the new hard state on disk.
+            let tmp_path = self.data_dir.join(format!("{HARD_STATE_FILE_NAME}.tmp"));
+            let mut file = File::create(&tmp_path)?;
             #[cfg(d_engine_verif)]
             verif_crashpoint::hit("meta:created");
             file.write_all(value)?;
@@ -533,6 +537,13 @@ impl FileMetaStore {
             file.flush()?;
             #[cfg(d_engine_verif)]
             verif_crashpoint::hit("meta:flushed");
+            file.sync_all()?;
+            drop(file);
+            fs::rename(&tmp_path, &hard_state_path)?;
+            // Make the rename itself durable (best effort: not every platform can open a directory).
+            if let Ok(dir) = File::open(&self.data_dir) {
+                let _ = dir.sync_all();
+            }
         }
 
         Ok(())
